@@ -1,6 +1,7 @@
 package main
 
 import (
+	"bytes"
 	"encoding/json"
 	"fmt"
 	"math"
@@ -728,6 +729,65 @@ func runC17(args []string) int {
 		r.Traces++
 	}
 
+	// coordinates as the decoder produces them: a position field decoded from the wire is the coordinate the
+	// constructor (checked above on every value) gives for the same 32-bit value -- same validity, same
+	// Semicircles, same Degrees and printed form -- in both byte orders
+	{
+		vals := []int32{0, 1, -1, 1<<30 - 1, 1 << 30, 1<<30 + 1, -(1 << 30), -(1 << 30) - 1, -(1 << 30) + 1, 0x50000000, -0x50000000, math.MinInt32, math.MinInt32 + 1, math.MaxInt32, math.MaxInt32 - 1}
+		for k := 0; k < 40; k++ {
+			vals = append(vals, int32(uint32(rg.u64())))
+		}
+		for _, v := range vals {
+			for _, v2 := range []int32{v, ^v} {
+				for arch := byte(0); arch < 2; arch++ {
+					s := &stream{HdrSize: 14, Proto: 0x10, Profile: 2115, HdrCRC: "ok"}
+					s.Records = append(s.Records,
+						record{Kind: "D", Local: 0, Gmn: 0, Fields: []fieldDefS{{0, 1, 0}}},
+						record{Kind: "M", Local: 0, Pay: []byte{4}},
+						record{Kind: "D", Local: 1, Arch: arch, Gmn: uint16(fit.MesgNumRecord), Fields: []fieldDefS{{0, 4, 0x85}, {1, 4, 0x85}}},
+						record{Kind: "M", Local: 1, Pay: append(put32(arch == 1, uint32(v)), put32(arch == 1, uint32(v2))...)})
+					data := s.bytes()
+					rep := map[string]interface{}{"entry": "fit.Decode -> record.PositionLat / PositionLong", "kind": "decoded_coordinate", "lat_semicircles": v, "lng_semicircles": v2, "big_endian": arch == 1, "input_hex": hexs(data)}
+					var lat fit.Latitude
+					var lng fit.Longitude
+					perr := func() (msg string) {
+						defer func() {
+							if rec := recover(); rec != nil {
+								msg = fmt.Sprint("panic: ", rec)
+							}
+						}()
+						f, err := fit.Decode(bytes.NewReader(data))
+						if err != nil {
+							return "error: " + err.Error()
+						}
+						a, err := f.Activity()
+						if err != nil || len(a.Records) != 1 {
+							return "no record decoded"
+						}
+						lat, lng = a.Records[0].PositionLat, a.Records[0].PositionLong
+						return ""
+					}()
+					r.count(fmt.Sprintf("dec%d.%d.%d", v, v2, arch), true)
+					r.hist("decoded_coordinates")
+					r.Traces++
+					if perr != "" {
+						fails.add(true, "decoded_coordinate", fmt.Sprintf("a record with position_lat %d, position_long %d does not decode: %s", v, v2, perr), rep)
+						continue
+					}
+					wl, wg := fit.NewLatitude(v), fit.NewLongitude(v2)
+					same := func(a, b float64) bool { return a == b || (math.IsNaN(a) && math.IsNaN(b)) }
+					if lat.Invalid() != wl.Invalid() || lat.Semicircles() != wl.Semicircles() || !same(lat.Degrees(), wl.Degrees()) || lat.String() != wl.String() {
+						fails.add(true, "decoded_coordinate", fmt.Sprintf("position_lat %d decodes to a Latitude with Invalid=%v Semicircles=%d Degrees=%v String=%q; NewLatitude(%d) has Invalid=%v Semicircles=%d Degrees=%v String=%q",
+							v, lat.Invalid(), lat.Semicircles(), lat.Degrees(), lat.String(), v, wl.Invalid(), wl.Semicircles(), wl.Degrees(), wl.String()), rep)
+					}
+					if lng.Invalid() != wg.Invalid() || lng.Semicircles() != wg.Semicircles() || !same(lng.Degrees(), wg.Degrees()) || lng.String() != wg.String() {
+						fails.add(true, "decoded_coordinate", fmt.Sprintf("position_long %d decodes to a Longitude with Invalid=%v Semicircles=%d Degrees=%v; NewLongitude(%d) has Invalid=%v Semicircles=%d Degrees=%v",
+							v2, lng.Invalid(), lng.Semicircles(), lng.Degrees(), v2, wg.Invalid(), wg.Semicircles(), wg.Degrees()), rep)
+					}
+				}
+			}
+		}
+	}
 	fails.flush(r)
 	return r.finish()
 }
